@@ -100,7 +100,117 @@ def inline_call(caller, callee, call_bb):
     blkc["st"].extend(st)
     blkc["term"] = {"t": "goto", "to": bo, "sp": term["sp"], "inlined_call": callee["key"]}
     caller.setdefault("inlined", []).append(callee["key"])
+    try:
+        thread_returns(caller, lo, bo, bo + len(cal["blocks"]), cont, dest)
+    except Exception:
+        # threading is an optimisation of precision only: without it the inlined body is still a sound
+        # over-approximation (all returns merge in the continuation)
+        if os.environ.get("VERIF_DEBUG"):
+            raise
     return True
+
+
+# ------------------------------------------------------------------------------------------
+# private return tails
+# ------------------------------------------------------------------------------------------
+# MIR funnels every `return` of a function through shared drop / return blocks. Once the function is
+# inlined, the value each source-level `return` produces (None / Some(x) / Ok(..) / true ..) would
+# merge there before it reaches the caller's test of it. Give every return its own straight-line
+# tail (tail duplication); thread.py then sends each of them directly to the arm its value selects.
+
+
+def _succ1(blk):
+    t = blk["term"]
+    if t["t"] == "goto":
+        return t["to"]
+    if t["t"] in ("drop", "assert", "call") and t.get("to") is not None:
+        return t["to"]
+    return None
+
+
+def _normal_succs(blk):
+    t = blk["term"]
+    if t["t"] == "switch":
+        return [b for _, b in t["targets"]] + [t["otherwise"]]
+    s1 = _succ1(blk)
+    return [s1] if s1 is not None else []
+
+
+def thread_returns(caller, lo, start, end, cont, dest):
+    """give every assignment of the inlined function's return value its own copy of the epilogue
+    (the drop / drop-flag blocks between the assignment and the return)"""
+    blocks = caller["blocks"]
+
+    def defines(i):
+        blk = blocks[i]
+        if any(st["s"] == "assign" and st["pl"]["l"] == lo for st in blk["st"]):
+            return True
+        t = blk["term"]
+        return t["t"] == "call" and t["dest"]["l"] == lo
+
+    region = [i for i in range(start, end) if not blocks[i].get("cleanup")]
+    sites = [i for i in region if defines(i) and not blocks[i]["term"].get("inlined_return")]
+    if len(sites) < 2 or len(sites) > 24:
+        return
+    site_set = set(sites)
+    for d in sites:
+        # forward slice from the definition to the return(s)
+        sl = []
+        seen = set()
+        work = list(_normal_succs(blocks[d]))
+        ok = True
+        while work and ok:
+            b = work.pop()
+            if b in seen or b in site_set:
+                continue
+            if not (start <= b < end) or blocks[b].get("cleanup"):
+                continue  # the continuation in the caller (after an inlined return)
+            seen.add(b)
+            sl.append(b)
+            t = blocks[b]["term"]
+            if t["t"] == "call" or len(sl) > 60:
+                ok = False
+                break
+            if t.get("inlined_return"):
+                continue
+            work.extend(_normal_succs(blocks[b]))
+        if not ok or not sl or not any(blocks[b]["term"].get("inlined_return") for b in sl):
+            continue
+        # no cycle inside the slice
+        order = {}
+        state = {}
+
+        def cyclic(b):
+            state[b] = 1
+            for s_ in _normal_succs(blocks[b]):
+                if s_ in seen and not blocks[b]["term"].get("inlined_return"):
+                    if state.get(s_) == 1:
+                        return True
+                    if state.get(s_) is None and cyclic(s_):
+                        return True
+            state[b] = 2
+            return False
+
+        if any(state.get(b) is None and cyclic(b) for b in sl):
+            continue
+        base = len(blocks)
+        remap = {b: base + k for k, b in enumerate(sl)}
+        for b in sl:
+            nb = copy.deepcopy(blocks[b])
+            t = nb["term"]
+            if not t.get("inlined_return"):
+                if isinstance(t.get("to"), int) and t["to"] in remap:
+                    t["to"] = remap[t["to"]]
+                if "targets" in t:
+                    t["targets"] = [[v, remap.get(x, x)] for v, x in t["targets"]]
+                    t["otherwise"] = remap.get(t["otherwise"], t["otherwise"])
+            blocks.append(nb)
+        t = blocks[d]["term"]
+        if isinstance(t.get("to"), int) and t["to"] in remap:
+            t["to"] = remap[t["to"]]
+        if "targets" in t:
+            t["targets"] = [[v, remap.get(x, x)] for v, x in t["targets"]]
+            t["otherwise"] = remap.get(t["otherwise"], t["otherwise"])
 
 
 def apply(raw_bodies, max_depth=3, max_blocks=600):
